@@ -254,6 +254,7 @@ fn handle(v: Verdict, case: u64, ev: &mut Ev, what: &str, desc: &Value, answer: 
 
 pub fn run_case(ctx: &Ctx, case: u64, ev: &mut Ev) {
     let mut rng = Rng::derive(ctx.seed, "C10", case);
+    rng.big = ctx.tier == crate::Tier::Thorough && rng.chance(0.2);
     match rng.below(10) {
         0..=5 => run_generated(case, &mut rng, ev),
         6..=7 => run_chebyshev(case, &mut rng, ev),
@@ -262,9 +263,9 @@ pub fn run_case(ctx: &Ctx, case: u64, ev: &mut Ev) {
 }
 
 fn run_generated(case: u64, rng: &mut Rng, ev: &mut Ev) {
-    let n = if rng.chance(0.1) { 5 + rng.below(3) } else { 1 + rng.below(4) };
+    let n = if rng.big || rng.chance(0.1) { 5 + rng.below(4) } else { 1 + rng.below(4) };
     let (mut p, class) = gen_system(rng, n);
-    if rng.chance(0.1) {
+    if rng.big || rng.chance(0.1) {
         // pile up more cuts (up to ~20 rows)
         for _ in 0..(5 + rng.below(10)) {
             p.mat.push(gen::nonzero_row(rng, n, Regime::Int));
